@@ -116,7 +116,9 @@ fn main() {
         if !entry.variants.contains(&name) {
             continue;
         }
-        let tmp = format!("/verif/evidence/.part-{}-{}-{}.json", prop, name, std::process::id());
+        let od = report::out_dir().join("evidence");
+        let _ = std::fs::create_dir_all(&od);
+        let tmp = format!("{}/.part-{}-{}-{}.json", od.display(), prop, name, std::process::id());
         let st = std::process::Command::new(bin)
             .arg(&prop)
             .arg("--tier")
